@@ -66,8 +66,13 @@ func posCase(text []byte, off int, e int64) Case {
 	return Case{Fn: "position", Args: args, Note: c15Note(text, int64(off), e)}
 }
 
+// errLexerCase: NewErrorLexer after Move(p1); Skip(); Move(p-p1), so that Pos() != Offset()
 func errLexerCase(text []byte, p int) Case {
-	args := []int64{int64(p)}
+	p1 := 0
+	if p > 0 {
+		p1 = (p*7 + len(text)) % (p + 1)
+	}
+	args := []int64{int64(p1), int64(p - p1)}
 	args = append(args, bytesToArgs(text)...)
 	ng := nonGraphic(text)
 	args = append(args, int64(len(ng)))
@@ -126,8 +131,8 @@ func positionImpl(c Case) []int64 {
 }
 
 func errLexerImpl(c Case) []int64 {
-	p := int(c.Args[0])
-	dv, _ := takeList(c.Args[1:])
+	p1, p2 := int(c.Args[0]), int(c.Args[1])
+	dv, _ := takeList(c.Args[2:])
 	d := toBytes(dv)
 	var l *parse.Input
 	switch len(d) % 3 {
@@ -140,7 +145,9 @@ func errLexerImpl(c Case) []int64 {
 	}
 	var er *parse.Error
 	if pn := catch(func() {
-		l.Move(p)
+		l.Move(p1)
+		l.Skip()
+		l.Move(p2)
 		er = parse.NewErrorLexer(l, "message %d", 1)
 	}); pn != nil {
 		return []int64{-1}
@@ -193,17 +200,24 @@ var c15Breaks = []string{"\n", "\r", "\r\n", "\u2028", "\u2029"}
 
 // c15LongText: a few short lines, then a line of n runes, then possibly more text.
 func c15LongText(r *Rng, n int, invalid bool) []byte {
-	var b []byte
+	b, _, _ := c15LongText2(r, n, invalid)
+	return b
+}
+
+// c15LongText2 also returns the byte range [ls, le) of the line of n runes.
+func c15LongText2(r *Rng, n int, invalid bool) (b []byte, ls, le int) {
 	for k := r.Intn(4); k > 0; k-- {
 		b = append(b, c15RandLine(r, r.Intn(5), invalid)...)
 		b = append(b, c15Breaks[r.Intn(len(c15Breaks))]...)
 	}
+	ls = len(b)
 	b = append(b, c15RandLine(r, n, invalid)...)
+	le = len(b)
 	if r.Bool() {
 		b = append(b, c15Breaks[r.Intn(len(c15Breaks))]...)
 		b = append(b, c15RandLine(r, r.Intn(70), invalid)...)
 	}
-	return b
+	return b, ls, le
 }
 
 var c15LineLens = []int{0, 1, 20, 39, 40, 41, 42, 56, 57, 58, 59, 60, 61, 62, 63, 64, 65, 80, 83, 84, 85, 86, 100, 130}
@@ -221,8 +235,8 @@ func c15Class(c Case, out []int64) string {
 			return "reader-error"
 		}
 	} else {
-		off = c.Args[0]
-		dv, _ = takeList(c.Args[1:])
+		off = c.Args[0] + c.Args[1]
+		dv, _ = takeList(c.Args[2:])
 	}
 	ctx := make([]rune, 0, len(out))
 	for _, x := range out[3:] {
@@ -294,8 +308,8 @@ func c15Shrink(c Case) []Case {
 		}
 		return out
 	}
-	p := int(c.Args[0])
-	dv, _ := takeList(c.Args[1:])
+	p := int(c.Args[0] + c.Args[1])
+	dv, _ := takeList(c.Args[2:])
 	d := toBytes(dv)
 	for i := range d {
 		nd := append(append([]byte{}, d[:i]...), d[i+1:]...)
@@ -328,7 +342,7 @@ var positionModel = &Model{
 		})
 		allStrings(c15Bytes, k3, all)
 		// 59/60/61-rune lines (and the other regime boundaries): every offset
-		reps := 2
+		reps := 3
 		if tier == "thorough" {
 			reps = 40
 		}
@@ -351,9 +365,22 @@ var positionModel = &Model{
 			if r.Chance(1, 10) {
 				n = 60 + r.Intn(400)
 			}
-			text := c15LongText(r, n, i%5 == 4)
+			text, ls, le := c15LongText2(r, n, i%5 == 4)
 			for j := 0; j < 6; j++ {
-				emit(posCase(text, r.Intn(len(text)+3)-1, 0))
+				off := r.Intn(len(text)+3) - 1
+				switch j % 3 {
+				case 1: // near the end of the long line: front elision and its boundary (col >= len-23)
+					off = le - r.Intn(60)
+				case 2: // inside the long line, near the boundary col 40/41 and beyond
+					off = ls + 25 + r.Intn(60)
+				}
+				if off < -1 {
+					off = -1
+				}
+				if off > len(text)+1 {
+					off = len(text) + 1
+				}
+				emit(posCase(text, off, 0))
 			}
 		}
 		// line numbers across the widths of %5d that the model side can afford (<= 10^4 bytes)
@@ -991,7 +1018,7 @@ func c15ErrorOracle(r *Rng, tier string, rep *Report) {
 		}
 	}
 	// every parser: malformed inputs; each *parse.Error must be a Position of a byte inside the input
-	frags := []string{"<a b=c>", "<a ", "</a>", "<!--x-->", "<?xml ?>", "<![CDATA[x]]>", "<script>", "</script>", "<style>", "x", " ", "\n", "\r\n", "\x00", "é", "\u2028",
+	frags := []string{"<a b=c>", "<a ", "</a>", "<!--x-->", "<?xml ?>", "<![CDATA[x]]>", "<script>", "</script>", "<style>", "<svg>", "<math>", "</svg>", "<svg a=\"", "x", " ", "\n", "\r\n", "\x00", "é", "\u2028",
 		"a{b:c}", "a{", "}", "@media x{", "b:c;", "b c;", ":", ";", "--v:{", "/*", "*/", "\"", "'", "(", ")", "[", "url(", "\\",
 		"var x=1;", "x=`a${", "}`", "/re/", "0x", "1e", "08", "1a", "#", "'s", "if(", "{", "function", "=>", "...", "//c\n", "<!--", "\"k\":", "[1,", "tru", "-"}
 	nm := 4000
